@@ -3,7 +3,7 @@ import itertools
 import json
 
 ID = "C01"
-PROP_FILES = ["Properties/C01.v"]
+PROP_FILES = ["Properties/C01.v", "Properties/C01_scanner.v"]
 THEOREMS = ["C01_parse_sound", "C01_parse_iff", "C01_grammar_unambiguous", "C01_fuel_enough",
             "C01_grouping_transparent", "C01_example", "C01_refuted_without_eof_check"]
 ASSUMPTIONS = [
